@@ -326,9 +326,17 @@ def coq_diff(d: list) -> str:
 SK0 = '(ZFin 0%Z, "", true)'
 
 
+def coq_sk(sk) -> str:
+    if not sk:
+        return SK0
+    n = "ZInf" if sk[0] == "inf" else f"(ZFin ({sk[0]})%Z)"
+    return f"({n}, {cstr(sk[1])}, {cbool(sk[2])})"
+
+
 def coq_ptree(p: list) -> str:
     return "(PT " + clist(
-        f"({cstr(i['row'])}, {copt(None if i['child'] is None else coq_ptree(i['child']))}, {SK0})" for i in p) + ")"
+        f"({cstr(i['row'])}, {copt(None if i['child'] is None else coq_ptree(i['child']))}, {coq_sk(i.get('sk'))})"
+        for i in p) + ")"
 
 
 def coq_paths(ps: list) -> str:
